@@ -387,6 +387,25 @@ pub fn spaces(tier: Tier) -> Vec<Space<'static>> {
             judge(&text, acc);
         }
     }));
+    // well-known multi-byte sequences (byte order marks, Unicode white space and separators, a NUL
+    // run, CRLF pairs) inserted at every position of a text: only JSON's four white-space bytes may
+    // stand between tokens, and inside a string everything is content
+    {
+        const SEQS: [&[u8]; 12] = [b"\xEF\xBB\xBF", b"\xFE\xFF", b"\xFF\xFE", b"\xC2\x85", b"\xC2\xA0", b"\xE2\x80\xA8", b"\xE2\x80\xA9", b"\xE3\x80\x80", b"\xE2\x80\x8B", b"\x00\x00", b"\r\n", b"//"];
+        let bases: Arc<Vec<Vec<u8>>> = Arc::new(univ::d2().iter().step_by(5).map(|v| refmodel::text::print(v).into_bytes()).chain([b"[1, 2]".to_vec(), b"{\"a\" : [true , null]}".to_vec(), b" \"x\" ".to_vec(), b"1".to_vec(), b"null".to_vec()]).collect());
+        let b1 = bases.clone();
+        sp.push(Space::new("multi-byte sequences (BOMs, Unicode white space, NUL run, CRLF, //) inserted at every position", bases.len() as u64, move |i, acc| {
+            let t = &b1[i as usize];
+            for pos in 0..=t.len() {
+                for s in SEQS {
+                    let mut x = t[..pos].to_vec();
+                    x.extend_from_slice(s);
+                    x.extend_from_slice(&t[pos..]);
+                    judge(&x, acc);
+                }
+            }
+        }));
+    }
     // every one of the 256 byte values inserted at, and substituted for, every position
     let sub: Arc<Vec<Vec<u8>>> = Arc::new(univ::d2().iter().step_by(9).map(|v| refmodel::text::print(v).into_bytes()).chain([b"[1, 2]".to_vec(), b"{\"a\" : [true , null]}".to_vec(), b" \"x\" ".to_vec()]).collect());
     let sub1 = sub.clone();
